@@ -145,6 +145,45 @@ func (e *Engine) registerIntrinsics() {
 		}
 		return res
 	}
+	// strings.ToLower / ToUpper on ASCII input (one decision: all bytes below 0x80); other input
+	// goes through unicode tables and may change length: not modelled (the path ends inconclusive)
+	caseMap := func(lower bool) NativeFn {
+		return func(e *Engine, st *State, a []Value, ci ssa.CallInstruction) Value {
+			s := a[0].(Slice)
+			n := st.concreteSize(s.Len, "strings.ToLower length")
+			if n == 0 {
+				return s
+			}
+			arr := st.obj(s.Obj).Arr
+			ascii := tTrue
+			for i := 0; i < n; i++ {
+				ascii = And(ascii, BVUlt(Select(arr, BVAdd(s.Off, U64(uint64(i)))), BVC(8, 0x80)))
+			}
+			if !st.decide(ascii) {
+				panic(abortSignal{"strings.ToLower/ToUpper on non-ASCII input is not modelled"})
+			}
+			out := ZeroArr()
+			for i := 0; i < n; i++ {
+				b := Select(arr, BVAdd(s.Off, U64(uint64(i))))
+				lo, hi, d := uint64('A'), uint64('Z'), uint64(32)
+				if !lower {
+					lo, hi = uint64('a'), uint64('z')
+				}
+				in := And(BVUle(BVC(8, lo), b), BVUle(b, BVC(8, hi)))
+				var m *Term
+				if lower {
+					m = BVAdd(b, BVC(8, d))
+				} else {
+					m = BVSub(b, BVC(8, d))
+				}
+				out = Store(out, U64(uint64(i)), Ite(in, m, b))
+			}
+			id := st.newBytes(out, U64(uint64(n)))
+			return Slice{Obj: id, Off: U64(0), Len: U64(uint64(n)), Cap: U64(uint64(n))}
+		}
+	}
+	n["strings.ToLower"] = caseMap(true)
+	n["strings.ToUpper"] = caseMap(false)
 	n["(crypto.Hash).Size"] = func(e *Engine, st *State, a []Value, ci ssa.CallInstruction) Value {
 		sizes := map[uint64]int64{1: 16, 2: 16, 3: 20, 4: 28, 5: 32, 6: 48, 7: 64, 8: 36, 9: 20, 10: 28, 11: 32, 12: 48, 13: 64, 14: 28, 15: 32, 16: 32, 17: 32, 18: 64, 19: 64}
 		t := a[0].(BV).T
